@@ -262,8 +262,71 @@ def fam_shared(case):
             "states": 2, "transitions": 2, "traces": 1, "excluded": excl}
 
 
+def fam_two_objects(case):
+    """State shared between OBJECTS (class-level memo, module-level scratch):
+    using object B between two uses of object A must not change what A
+    reports.  Reference: the same operations on A alone."""
+    dname, mi, tier = case
+    drv = D.DRIVERS[dname]
+    modelA = drv.models(tier)[mi]
+    modelB = drv.other_model(modelA, tier)
+    viol, ev, tr = [], 0, 0
+
+    def all_q(obj, model):
+        return [(D.qlabel(q), D.qpattern(q), outcome(drv.call, obj, q))
+                for q in drv.queries(model)]
+
+    steps = [None] + [spec for _, spec in drv.mutators(modelA)]
+    for spec in steps:
+        # reference: A alone
+        a = drv.construct(modelA)
+        drv.clear_caches(a)
+        ma = modelA
+        try:
+            all_q(a, ma)
+            if spec is not None:
+                ma = drv.apply(a, ma, spec)
+                if ma is None:
+                    continue
+            ref = all_q(a, ma)
+        except Exception:   # noqa
+            continue
+        # test: the same with B used in between
+        drv.clear_caches(a)
+        a = drv.construct(modelA)
+        b = drv.construct(modelB)
+        ma, mb = modelA, modelB
+        all_q(a, ma)
+        all_q(b, mb)
+        if spec is not None:
+            ma = drv.apply(a, ma, spec)
+            try:
+                mb2 = drv.apply(b, mb, spec)
+                if mb2 is not None:
+                    mb = mb2
+                    all_q(b, mb)
+            except Exception:   # noqa
+                pass
+        else:
+            all_q(b, mb)
+        got = all_q(a, ma)
+        tr += 3
+        for (lab, pat, g), (_, _, e) in zip(got, ref):
+            ev += 1
+            if not same_outcome(g, e, **drv.tol):
+                viol.append(V(
+                    "%s.%s:changed-by-other-object:%s" % (
+                        drv.name, pat, spec[0] if spec else "queries"),
+                    "%s on object A differs when another object of the "
+                    "same class was used in between" % lab,
+                    brief(g), brief(e)))
+    return {"viol": viol, "evals": ev, "sig": (dname, mi, "two"),
+            "states": len(steps), "transitions": tr, "traces": len(steps)}
+
+
 FAMILIES = {"after_q1": fam_after_q1, "pairs": fam_pairs,
-            "shared": fam_shared, "ctor": fam_ctor}
+            "shared": fam_shared, "ctor": fam_ctor,
+            "two_objects": fam_two_objects}
 
 
 def run(ctx):
@@ -293,6 +356,9 @@ def run(ctx):
                 pairs += [[dname, mi, i] for i in range(n)]
     ctx.explore("ctor", ctor_cases, chunk=1, desc="constructor/query input "
                 "snapshots")
+    ctx.explore("two_objects", [c + [ctx.tier] for c in ctor_cases], chunk=1,
+                desc="A, another object B of the same class, A again "
+                "(queries and each mutator) vs A alone")
     ctx.explore("after_q1", aq, chunk=4, desc="q1 then all queries")
     if thorough:
         ctx.explore("pairs", pairs, chunk=2, desc="all ordered pairs, each "
